@@ -470,11 +470,26 @@ func RunOne(t *testing.T, sc *Scenario, tr *vh.Tracer, base string) bool {
 	return true
 }
 
+// referrerChain is a crafted universe: an image, a referrer of it, a referrer of that referrer, and one more level.
+func referrerChain() []vh.NodeSpec {
+	e := func(role string, to int) vh.Edge { return vh.Edge{Role: role, To: to} }
+	return []vh.NodeSpec{{}, {Kind: "blob", Edges: []vh.Edge{}},
+		{Kind: "manifest", Edges: []vh.Edge{e("config", 1)}},
+		{Kind: "manifest", Art: "application/vnd.verif.sig", Edges: []vh.Edge{e("subject", 2), e("config", 1)}},
+		{Kind: "manifest", Art: "application/vnd.verif.att", Edges: []vh.Edge{e("subject", 3), e("config", 1)}},
+		{Kind: "artifact", Art: "application/vnd.verif.sbom", Edges: []vh.Edge{e("subject", 4), e("blob", 1)}}}
+}
+
 func genScenario(rng *rand.Rand, kind string) Scenario {
 	n := 3 + rng.Intn(3)
 	succ := vh.RandomSucc(n, rng, 30+rng.Intn(30))
 	nodes := vh.ShapeFromSucc(succ, rng, vh.ShapeOpts{Subjects: true, Artifact: true, Docker: kind != "oci" || rng.Intn(3) == 0, Dup: true,
 		Alias: kind == "memory"})
+	chain := kind == "oci" && rng.Intn(4) == 0
+	if chain {
+		nodes = referrerChain()
+		n = len(nodes) - 1
+	}
 	sc := Scenario{Kind: kind, Nodes: nodes, AutoGC: rng.Intn(2) == 0, AutoSave: rng.Intn(4) != 0, Reopen: "end"}
 	if rng.Intn(5) == 0 {
 		sc.Reopen = "all"
@@ -505,8 +520,19 @@ func genScenario(rng *rand.Rand, kind string) Scenario {
 			sc.Ops = append(sc.Ops, Op{Op: "push", N: p + 1})
 		}
 	}
+	if chain {
+		// tag referrers in the middle of the chain, sometimes the image as well
+		for k := 2; k <= n; k++ {
+			if rng.Intn(3) == 0 {
+				sc.Ops = append(sc.Ops, Op{Op: "tag", N: k, Ref: ref()})
+			}
+		}
+	}
 	for len(sc.Ops) < steps+n {
 		x := rng.Intn(100)
+		if chain && x < 58 && rng.Intn(2) == 0 {
+			x = 68 + rng.Intn(26) // more deletes and GCs on the chain
+		}
 		switch {
 		case x < 4:
 			sc.Ops = append(sc.Ops, Op{Op: "pushbad", N: node()})
